@@ -31,6 +31,9 @@ FAMILIES = {
     "G1": (4, 120, 4, 260, 5),
 }
 UNIVERSE_SHARDS = 4
+# families whose universe is wider than the first 4 shards: the literal / reverse-search / class-sequence strategies are
+# selected by small differences between patterns (a self-overlapping suffix, a shared first byte), so a sample is not enough
+UNIVERSE_SHARDS_OF = {"REV": 8, "LIT": 8, "CC": 8}
 
 SEARCH_CFG = "SPECIFICATION Spec\nINVARIANT Emit\n"
 
@@ -42,7 +45,7 @@ def search_jobs(tier, families=None, with_at=False, budget_scale=1.0):
     for fam, (nsh, qb, ql, tb, tl) in FAMILIES.items():
         if families and fam not in families:
             continue
-        u = min(nsh, UNIVERSE_SHARDS)
+        u = min(nsh, UNIVERSE_SHARDS_OF.get(fam, UNIVERSE_SHARDS))
         if tier == "quick":
             shards = [s % u]
             b, l = qb, ql
@@ -732,7 +735,7 @@ def c06(prop, tier):
         rrp, rfp = os.path.join(work, "race.json"), os.path.join(work, "race_fail.ndjson")
         env = dict(os.environ)
         env["GORACE"] = "halt_on_error=0 history_size=2"
-        p = subprocess.run([vhr, "racerun", "-report", rrp, "-fail", rfp, "-goroutines", "6" if q else "12", "-iters", "30" if q else "200"],
+        p = subprocess.run([vhr, "racerun", "-report", rrp, "-fail", rfp, "-goroutines", "8" if q else "12", "-iters", "80" if q else "300"],
                            capture_output=True, text=True, timeout=3000, env=env)
         if p.returncode not in (0, 66):
             raise Machinery(f"racerun exit {p.returncode}: {p.stderr[-600:]}")
